@@ -8,6 +8,19 @@ open DvcData Json
 
 abbrev Str := List Char
 
+/-! dictionary keys, as explicit character lists (so that `decide` can compare them) -/
+def kIsdir : Str := ['i','s','d','i','r']
+def kSize : Str := ['s','i','z','e']
+def kNfiles : Str := ['n','f','i','l','e','s']
+def kIsexec : Str := ['i','s','e','x','e','c']
+def kVersionId : Str := ['v','e','r','s','i','o','n','_','i','d']
+def kEtag : Str := ['e','t','a','g']
+def kChecksum : Str := ['c','h','e','c','k','s','u','m']
+def kMd5 : Str := ['m','d','5']
+def kRemote : Str := ['r','e','m','o','t','e']
+def kInode : Str := ['i','n','o','d','e']
+def kMtime : Str := ['m','t','i','m','e']
+
 /-- the fields of `Meta` that take part in serialisation or comparison -/
 structure Meta where
   isdir : Bool := false
@@ -32,7 +45,8 @@ structure HashInfo where
 def HashInfo.truthy (h : HashInfo) : Bool :=
   match h.value with | some v => !v.isEmpty | none => false
 
-def endsWithDir (v : Str) : Bool := ".dir".toList.isSuffixOf v
+def dirSuffix : Str := ['.','d','i','r']
+def endsWithDir (v : Str) : Bool := dirSuffix.isSuffixOf v
 
 def HashInfo.isdir (h : HashInfo) : Bool :=
   match h.value with | some v => !v.isEmpty && endsWithDir v | none => false
@@ -41,41 +55,43 @@ def truthyStr : Option Str → Bool
   | some s => !s.isEmpty
   | none => false
 
-def optStr (k : String) : Option Str → JObj
-  | some s => if s.isEmpty then [] else [(k.toList, .str s)]
+def optStr (k : Str) : Option Str → JObj
+  | some s => if s.isEmpty then [] else [(k, .str s)]
   | none => []
 
-def optNat (k : String) : Option Nat → JObj
-  | some n => [(k.toList, .int n)]
+def optNat (k : Str) : Option Nat → JObj
+  | some n => [(k, .int n)]
   | none => []
 
-def optTrue (k : String) (b : Bool) : JObj := if b then [(k.toList, .bool true)] else []
+def optTrue (k : Str) (b : Bool) : JObj := if b then [(k, .bool true)] else []
 
 /-- `Meta.to_dict` (insertion order as in the source) -/
 def Meta.toDict (m : Meta) : JObj :=
-  optTrue "isdir" m.isdir ++ optNat "size" m.size ++ optNat "nfiles" m.nfiles ++
-  optTrue "isexec" m.isexec ++ optStr "version_id" m.versionId ++ optStr "etag" m.etag ++
-  optStr "checksum" m.checksum ++ optStr "md5" m.md5 ++ optStr "remote" m.remote
+  optTrue kIsdir m.isdir ++ optNat kSize m.size ++ optNat kNfiles m.nfiles ++
+  optTrue kIsexec m.isexec ++ optStr kVersionId m.versionId ++ optStr kEtag m.etag ++
+  optStr kChecksum m.checksum ++ optStr kMd5 m.md5 ++ optStr kRemote m.remote
 
-def getStr (d : JObj) (k : String) : Option Str :=
-  match d.lookup k.toList with | some (.str s) => some s | _ => none
-def getNat (d : JObj) (k : String) : Option Nat :=
-  match d.lookup k.toList with | some (.int n) => some n | _ => none
-def getBool (d : JObj) (k : String) : Bool :=
-  match d.lookup k.toList with | some (.bool b) => b | _ => false
+def getStr (d : JObj) (k : Str) : Option Str :=
+  match d.lookup k with | some (.str s) => some s | _ => none
+def getNat (d : JObj) (k : Str) : Option Nat :=
+  match d.lookup k with | some (.int n) => some n | _ => none
+def getBool (d : JObj) (k : Str) : Bool :=
+  match d.lookup k with | some (.bool b) => b | _ => false
 
 /-- `Meta.from_dict` restricted to well-typed dictionaries -/
 def Meta.fromDict (d : JObj) : Meta :=
-  { isdir := getBool d "isdir", size := getNat d "size", nfiles := getNat d "nfiles",
-    isexec := getBool d "isexec", versionId := getStr d "version_id", etag := getStr d "etag",
-    checksum := getStr d "checksum", md5 := getStr d "md5", inode := getNat d "inode",
-    mtime := getNat d "mtime", remote := getStr d "remote" }
+  { isdir := getBool d kIsdir, size := getNat d kSize, nfiles := getNat d kNfiles,
+    isexec := getBool d kIsexec, versionId := getStr d kVersionId, etag := getStr d kEtag,
+    checksum := getStr d kChecksum, md5 := getStr d kMd5, inode := getNat d kInode,
+    mtime := getNat d kMtime, remote := getStr d kRemote }
 
 /-- what survives serialisation: falsy strings become `None`, inode/mtime are not written -/
+def normStr (o : Option Str) : Option Str :=
+  match o with | some s => if s.isEmpty then none else some s | none => none
+
 def Meta.norm (m : Meta) : Meta :=
-  let n (o : Option Str) : Option Str := match o with | some s => if s.isEmpty then none else some s | none => none
-  { m with versionId := n m.versionId, etag := n m.etag, checksum := n m.checksum, md5 := n m.md5,
-           remote := n m.remote, inode := none, mtime := none }
+  { m with versionId := normStr m.versionId, etag := normStr m.etag, checksum := normStr m.checksum,
+           md5 := normStr m.md5, remote := normStr m.remote, inode := none, mtime := none }
 
 /-- `HashInfo.to_dict` -/
 def HashInfo.toDict (h : HashInfo) : JObj :=
@@ -110,10 +126,14 @@ def Entry.toDict (e : Entry) : EntryDict :=
       | none => none,
     loaded := e.loaded }
 
+/-- `meta = d.get("meta"); if meta: ret.meta = Meta.from_dict(meta)` (an empty dict is falsy) -/
+def metaOfDict? (d : Option JObj) : Option Meta :=
+  match d with
+  | some m => if m.isEmpty then none else some (Meta.fromDict m)
+  | none => none
+
 def Entry.fromDict (d : EntryDict) : Option Entry :=
-  let mt := match d.mt with
-    | some m => if m.isEmpty then none else some (Meta.fromDict m)    -- `if meta:` (empty dict is falsy)
-    | none => none
+  let mt := metaOfDict? d.mt
   match d.hashInfo with
   | some h =>
     if h.isEmpty then some { mt, hashInfo := none, loaded := d.loaded }
